@@ -100,6 +100,13 @@ def _replay_state(st):
         PA = A[ip]
         if not np.array_equal(PA, LUp):
             fails.append(("quaternion_lu.mode3", "PA_eq_LU", cls, dict(detail, got_ip=ip)))
+        # the library's own verifier must tell the same story as the oracle (mechanism level)
+        try:
+            v = L.verify_lu_decomposition(Aq, Lq, Uq, Pq)
+            if bool(v["passed"]) != bool(np.array_equal(PA, LUp)):
+                drift.append("verify_lu_decomposition(P) says passed=%s, oracle says %s (%s)" % (v["passed"], np.array_equal(PA, LUp), cls))
+        except Exception as e:  # noqa
+            drift.append("verify_lu_decomposition raised %r" % (e,))
         ul, up, mx = _structure(Lf, Uf, m, n, N)
         if not ul:
             fails.append(("quaternion_lu.mode3", "UnitLower", cls, detail))
@@ -118,6 +125,12 @@ def _replay_state(st):
     else:
         if not np.array_equal(A, LUp):
             fails.append(("quaternion_lu.mode2", "A_eq_L2U", cls, dict(detail, L2=Lf.tolist())))
+        try:
+            v = L.verify_lu_decomposition(Aq, Lq, Uq)
+            if bool(v["passed"]) != bool(np.array_equal(A, LUp)):
+                drift.append("verify_lu_decomposition says passed=%s, oracle says %s (%s)" % (v["passed"], np.array_equal(A, LUp), cls))
+        except Exception as e:  # noqa
+            drift.append("verify_lu_decomposition raised %r" % (e,))
         up = all(not np.any(Uf[r, c] != 0) for r in range(N) for c in range(n) if r > c)
         if not up:
             fails.append(("quaternion_lu.mode2", "UpperTrap", cls, detail))
